@@ -282,9 +282,12 @@ def module_spec(P, name, sch, defs, probe_disc, path):
                 if len(diffs) == n0:
                     diffs.append(("C09/%s/back/definition-differs" % tag,
                                   "definition %r = %r mapped back as %r" % (dn, d, b[2][dn])))
+        # a string that a RAW site writes wrongly can swallow the text after it and still compile: every structural
+        # difference of this schema then has that (reported) lexical root cause
+        raw_broken = bool(explained & {"pattern", "default", "description"})
         for k, w in diffs:
             m = re.match(r"C09/back/\w+/(pattern|default|enum)/changed", k)
-            if m and (m.group(1) in explained or (m.group(1) == "default" and "default_container" in explained)):
+            if raw_broken or (m and (m.group(1) in explained or (m.group(1) == "default" and "default_container" in explained))):
                 continue
             fails.append((k, w))
 
